@@ -59,5 +59,11 @@ pub unsafe extern "C" fn diplomat_free(ptr: *mut u8, size: usize, align: usize) 
 /// - `ptr` and `size` must be a valid `&[u8]`
 #[no_mangle]
 pub unsafe extern "C" fn diplomat_is_str(ptr: *const u8, size: usize) -> bool {
+    // It's common in C-land to represent empty slices with NULL (e.g. a default-constructed
+    // std::string_view), which is not a valid pointer for a Rust slice
+    if ptr.is_null() {
+        debug_assert!(size == 0);
+        return true;
+    }
     core::str::from_utf8(core::slice::from_raw_parts(ptr, size)).is_ok()
 }
